@@ -130,6 +130,31 @@ def _specs() -> Dict[str, Dict[str, Any]]:
         "expected_probes": ["patterns_found", "repeated_call_same_arguments", "second_build",
                             "more_than_127_kernels_under_one_operator"],
     }
+    from .profiles import files
+    specs["C20"] = {
+        "id": "C20", "stream": "files", "profile": files, "props": ["C20"], "level": "exploration",
+        "batches": [
+            {"name": "fault-free", "args": {"faulty": False}, "runs": {"quick": 160, "thorough": 3000}},
+            {"name": "faults", "args": {"faulty": True}, "runs": {"quick": 80, "thorough": 2000}},
+        ],
+        "rule": ("one evaluation = one simulated run over a generated world in both file formats: session A loads the directory "
+                 "and issues 1-4 writer operations (generate_trace_with_counters with every series selection / rank subset / "
+                 "suffix, critical-path overlay with all option combinations and the show-zero-weight flag, write_trace / "
+                 "read_trace between formats, update_trace_rank with ranks up to 4095, create_rank_to_trace_dict); then two "
+                 "new interpreters discover and load the directory under different listdir orders. Every written file is "
+                 "read back by the harness's byte-level reader and by the tool's own reader; prefix preservation, permitted "
+                 "edits only, markers, flow pairs, rank discovery, equality of the two next-session loads. Fault batch: "
+                 "ENOSPC / EIO / kill inside a write call of a writer. distinct_nontrivial = distinct event-log digests "
+                 "among runs with at least one checked file or discovery"),
+        "assumptions": GENERATOR_ASSUMPTIONS + [
+            "every complete event carries an args object (as Kineto writes them); the overlay addresses args of critical events",
+            "overlay output directories are sub-directories of the workspace, so overlays are not rediscovered as rank files",
+            "files that record no rank are generated, but where discovery puts them is not checked",
+        ],
+        "expected_probes": ["json_source_counters_file", "counter_events_appended", "overlay_all_events_kept",
+                            "overlay_all_edges", "overlay_with_sync_edges", "sibling_wins_the_collision", "rank_ge_10",
+                            "format_changed_by_write_trace", "directory_order_changed_the_winner"],
+    }
     return specs
 
 
